@@ -46,6 +46,10 @@ def gen_chan(rng, p):
         line += " pendingwrite=1"
     if rng.random() < p.get("probe_prob", 0.3):
         line += " retrychance=%d retrydelay=%d" % (rng.choice([1, 1, 2, 10]), rng.choice([0, 100, 1000, 5000]))
+    if rng.random() < p.get("fdreuse_prob", 0.5):
+        # the socket layer hands out the lowest free descriptor number (POSIX); events keep naming sockets by a
+        # never-reused logical id, so the trace of a correct library is the same
+        line += " fdreuse=1"
     return line, ns, flags
 
 
@@ -302,6 +306,172 @@ def walk_stream(quick_n=300, thorough_n=8000):
     return Stream("walk", "h_sim", "driver_sim", gen,
                   monitor=lambda c, o: mon_common(c, o) + simprops.mon_c12(c, o) + simprops.mon_c01(c, o),
                   driver_input=driver_input, compare=compare,
+                  nontrivial=lambda c, o: any(" cb(" in (" " + l) for l in o),
+                  opkind=lambda l: l.split()[0] + (":" + l.split("kind=")[1].split()[0] if "kind=" in l else ""))
+
+
+def gen_gai_sync_case(rng):
+    """ares_getaddrinfo(AF_UNSPEC) whose first (A) sub-request completes before the call that issued it returns - from
+    the query cache, or because every attempt fails in the socket layer - while the AAAA sub-request is still to be
+    issued / in flight; then answers, timeouts, cancel or destroy in some order"""
+    name = rng.choice(NAMES)
+    flags = (16 if rng.random() < 0.3 else 0)
+    mode = rng.choice(["cache", "cache", "sockfail", "both"])
+    ns = rng.choice([1, 1, 2])
+    tries = 1 if mode != "cache" else rng.choice([1, 2])
+    ops = ["chan servers=%s flags=%d tries=%d timeout=2000 cache=%d%s" % (
+        ",".join("10.0.0.%d" % (i + 1) for i in range(ns)), flags, tries, rng.choice([60, 3600]),
+        " fdreuse=1" if rng.random() < 0.5 else "")]
+    nreact = 0
+    if rng.random() < 0.4:
+        nreact = 1
+        ops.append("reaction idx=0 kind=%s name=%s type=1 tok=900" % (rng.choice(["send", "cancel"]), rng.choice(NAMES)))
+    tok = 1
+    if mode in ("cache", "both"):
+        # put the A answer (and sometimes the AAAA answer) into the cache through the same request path
+        for qt in ([1] if rng.random() < 0.8 else [1, 28]):
+            ops.append("req tok=%d kind=query name=%s type=%d" % (tok, name, qt))
+            tok += 1
+            ops.append("reply tx=-1 kind=noerror an=%d ttl=%s" % (1, rng.choice(["60", "300"])))
+            ops.append("procall")
+    if mode in ("sockfail", "both"):
+        for _ in range(rng.choice([1, 1, 2]) * ns):
+            ops.append("sockfail call=%s nth=1 errno=%d" % (rng.choice(["socket", "socket", "connect", "sendto"]), rng.choice([24, 111, 13])))
+    react = " react=R0" if nreact and rng.random() < 0.7 else ""
+    ops.append("req tok=%d kind=gai name=%s fam=0%s" % (tok, name, react))
+    tok += 1
+    for _ in range(rng.randint(1, 5)):
+        r = rng.random()
+        if r < 0.45:
+            kind = rng.choice(["noerror", "noerror", "nodata", "nxdomain", "servfail"])
+            ops.append("reply tx=-%d kind=%s%s" % (rng.choice([1, 1, 2]), kind, " an=1 ttl=30" if kind == "noerror" else ""))
+            ops.append("procall")
+        elif r < 0.6:
+            ops += ["adv %d" % rng.choice([2000, 2001, 5000]), "tick"]
+        elif r < 0.7:
+            ops.append("cancel")
+        elif r < 0.85:
+            ops.append("req tok=%d kind=gai name=%s fam=%d" % (tok, rng.choice([name, rng.choice(NAMES)]), rng.choice([0, 0, 2, 10])))
+            tok += 1
+        else:
+            ops.append("procall")
+    if rng.random() < 0.3:
+        ops.append("cancel")
+    ops.append("destroy")
+    return ops
+
+
+def gai_sync_stream(monitor, quick_n=200, thorough_n=6000):
+    def gen(rng, tier):
+        return [gen_gai_sync_case(rng) for _ in range(quick_n if tier == "quick" else thorough_n)]
+
+    def mon(case, out):
+        return mon_common(case, out) + (monitor(case, out) if monitor else [])
+    return Stream("gai-sync", "h_sim", "driver_sim", gen, monitor=mon, driver_input=driver_input, compare=compare,
+                  nontrivial=lambda c, o: any(" cb(" in (" " + l) for l in o),
+                  opkind=lambda l: l.split()[0] + (":" + l.split("kind=")[1].split()[0] if "kind=" in l else ""))
+
+
+def gen_cookie_rotate_case(rng):
+    """RFC 7873 client state across several queries: the server's cookie support is established, a query is in flight,
+    the client cookie is rotated (local address change on a new socket, or its 24 h lifetime), then cookie-less,
+    client-only, stale-cookie and genuine replies to the in-flight query arrive in some order"""
+    udpmax = rng.choice([0, 1, 1, 2])
+    ops = ["chan servers=10.0.0.1 flags=%d tries=%d timeout=5000 cache=%d%s%s" % (
+        rng.choice([0, 1024]), rng.choice([1, 2]), rng.choice([0, 60]), (" udpmax=%d" % udpmax) if udpmax else "",
+        " fdreuse=1" if rng.random() < 0.5 else "")]
+    srvck = "".join(rng.choice("0123456789abcdef") for _ in range(rng.choice([16, 16, 32, 64])))
+    tok = 1
+    ops += ["req tok=%d kind=send name=a.example type=1 edns=1" % tok,
+            "reply tx=-1 kind=noerror an=1 ttl=30 cookie=new:%s" % srvck, "proc r=-1"]
+    tok += 1
+    if rng.random() < 0.3:
+        ops += ["req tok=%d kind=send name=mail.example.org type=1 edns=1" % tok,
+                "reply tx=-1 kind=noerror an=1 ttl=30 cookie=echo", "proc r=-1"]
+        tok += 1
+    # the query that will be attacked
+    ops.append("req tok=%d kind=send name=www.example.com type=1 edns=1" % tok)
+    victim = tok
+    tok += 1
+    # rotation
+    rot = rng.choice(["selfip", "selfip", "lifetime", "none"])
+    if rot == "selfip":
+        ops.append("selfip v=1")
+        ops.append("req tok=%d kind=send name=host type=1 edns=1" % tok)
+        tok += 1
+    elif rot == "lifetime":
+        ops.append("adv %d" % rng.choice([86400001, 90000000]))
+        ops.append("req tok=%d kind=send name=host type=1 edns=1" % tok)
+        tok += 1
+    back = 1 if rot == "none" else 2
+    # replies to the victim's transmission
+    for _ in range(rng.randint(1, 4)):
+        kind = wchoice(rng, [("none", 4), ("clientonly", 3), ("badclient", 1), ("new:%s" % srvck, 2), ("echo", 2),
+                             ("new:%s" % ("ab" * rng.choice([8, 16])), 1)])
+        nmark = locals().get("nmark", 40) + 1
+        ops.append("reply tx=-%d kind=noerror an=1 ttl=30 cookie=%s mark=%d" % (back, kind, nmark))
+        ops.append("proc r=-%d" % back)
+        if rng.random() < 0.2:
+            ops.append("adv %d" % rng.choice([1000, 119999, 120001, 300001]))
+    if rng.random() < 0.5:
+        ops.append("req tok=%d kind=send name=www.example.com type=1 edns=1" % tok)   # what does the cache say now?
+        tok += 1
+    ops += ["adv 5000", "tick", "adv 10000", "tick", "destroy"]
+    return ops
+
+
+def cookie_rotate_stream(monitor, quick_n=200, thorough_n=6000):
+    def gen(rng, tier):
+        return [gen_cookie_rotate_case(rng) for _ in range(quick_n if tier == "quick" else thorough_n)]
+
+    def mon(case, out):
+        return mon_common(case, out) + (monitor(case, out) if monitor else [])
+    return Stream("cookie-rotate", "h_sim", "driver_sim", gen, monitor=mon, driver_input=driver_input, compare=compare,
+                  nontrivial=lambda c, o: any(" cb(" in (" " + l) for l in o),
+                  opkind=lambda l: l.split()[0] + (":" + l.split("cookie=")[1].split(":")[0].split()[0] if "cookie=" in l else ""))
+
+
+def gen_lookups_case(rng):
+    """the address-lookup front ends that the channel model does not cover (getaddrinfo with RFC 6724 sorting, which
+    probes source addresses with throw-away sockets; gethostbyname; gethostbyaddr; getnameinfo): monitors only"""
+    ns = rng.choice([1, 2])
+    ops = ["chan servers=%s flags=%d tries=%d timeout=2000%s%s" % (
+        ",".join("10.0.0.%d" % (i + 1) for i in range(ns)), rng.choice([0, 16]), rng.choice([1, 2]),
+        " cache=60" if rng.random() < 0.3 else "", " fdreuse=1" if rng.random() < 0.5 else "")]
+    tok = 0
+    for _ in range(rng.randint(3, 9)):
+        r = rng.random()
+        if r < 0.4 or tok == 0:
+            tok += 1
+            kind = wchoice(rng, [("gai", 5), ("ghbn", 2), ("ghba", 1), ("gni", 1)])
+            if kind == "gai":
+                ops.append("req tok=%d kind=gai name=%s fam=%d sort=1" % (tok, rng.choice(NAMES[:5] + ["10.1.2.3", "localhost"]), rng.choice([0, 0, 2, 10])))
+            elif kind == "ghbn":
+                ops.append("req tok=%d kind=ghbn name=%s fam=%d" % (tok, rng.choice(NAMES[:5]), rng.choice([0, 2, 10])))
+            else:
+                ops.append("req tok=%d kind=%s name=%s" % (tok, kind, rng.choice(["10.1.2.3", "192.0.2.7", "2001:db8::5"] if kind == "ghba" else ["10.1.2.3", "192.0.2.7"])))
+        elif r < 0.75:
+            kind = rng.choice(["noerror", "noerror", "noerror", "nodata", "nxdomain", "servfail"])
+            ops.append("reply tx=-%d kind=%s%s" % (rng.choice([1, 1, 2]), kind, (" an=%d ttl=30" % rng.choice([1, 2, 3, 4])) if kind == "noerror" else ""))
+            ops.append("procall")
+        elif r < 0.9:
+            ops.append("sockfail call=%s nth=%d errno=%d" % (rng.choice(["getsockname", "getsockname", "connect", "socket", "sendto"]),
+                                                             rng.choice([1, 1, 2, 3]), rng.choice([105, 111, 24])))
+        elif r < 0.95:
+            ops += ["adv 2000", "tick"]
+        else:
+            ops.append("cancel")
+    ops += ["procall", "adv 5000", "tick", "adv 5000", "tick", "destroy"]
+    return ops
+
+
+def lookups_stream(monitor, quick_n=300, thorough_n=8000):
+    def gen(rng, tier):
+        return [gen_lookups_case(rng) for _ in range(quick_n if tier == "quick" else thorough_n)]
+
+    def mon(case, out):
+        return mon_common(case, out) + (monitor(case, out) if monitor else [])
+    return Stream("lookups", "h_sim", None, gen, monitor=mon,
                   nontrivial=lambda c, o: any(" cb(" in (" " + l) for l in o),
                   opkind=lambda l: l.split()[0] + (":" + l.split("kind=")[1].split()[0] if "kind=" in l else ""))
 
